@@ -557,7 +557,8 @@ func loadYamlFile(ctx context.Context, file types.ConfigFile, opts *Options, wor
 			}
 		}
 	} else {
-		if err := processRawYaml(file.Config); err != nil {
+		// the model is processed in place: work on a copy, the parsed tree belongs to the caller
+		if err := processRawYaml(deepClone(file.Config)); err != nil {
 			return nil, nil, err
 		}
 	}
